@@ -5,6 +5,7 @@ import (
 	"bytes"
 	"encoding/json"
 	"fmt"
+	"io"
 	"os"
 	"os/exec"
 	"regexp"
@@ -14,6 +15,7 @@ import (
 	"strconv"
 	"strings"
 	"sync"
+	"sync/atomic"
 	"syscall"
 	"time"
 
@@ -30,41 +32,80 @@ import (
 	"verif/internal/wgen"
 )
 
-func init() { Registry["C10"] = runC10 }
+func init() {
+	Registry["C10"] = runC10
+	// replay: the stored source alone in a fresh isolated worker; p.Sig = key prefix + 0x1f + CPU-cap class name
+	perProgram["C10"] = func(r *explore.Run, p *prog) {
+		prefix, capSuffix, _ := strings.Cut(p.Sig, "\x1f")
+		if prefix == "" {
+			prefix = "C10|"
+		}
+		self, _ := os.Executable()
+		cpuCap := 40.0
+		if v, err := strconv.ParseFloat(os.Getenv("VERIF_C10_CPUCAP"), 64); err == nil && v > 0 {
+			cpuCap = v
+		}
+		classes, _ := c10RunAlone(self, p.Src, capSuffix, cpuCap, 4*1024*1024)
+		for _, cls := range classes {
+			r.Violate(explore.Violation{Key: prefix + cls, Detail: cls})
+		}
+	}
+}
 
 // c10Generators is deterministic in the tier, so parent and workers agree on indices.
-func c10Generators(thorough bool) []c10Gen {
-	seeds := append([]wgen.Micro{}, wgen.Micros...)
-	f1 := wgen.F1()
-	for _, i := range []int{0, 700, 1500, 2300, 3100} {
-		c := f1.At(i % f1.Count)
-		seeds = append(seeds, wgen.Micro{Name: c.Sig, Src: wgen.Print(c.Mod)})
+func c10Generators(thorough bool) []c10Gen { return c10GeneratorsOnly(thorough, -1, false) }
+
+// c10GeneratorsOnly builds only generator `only` (a worker needs just its own); the others are left
+// empty so that positions stay the same.
+func c10GeneratorsOnly(thorough bool, only int, inWorker bool) []c10Gen {
+	type seedSets struct {
+		seeds, corp, small []wgen.Micro
+		f1                 *wgen.Family
 	}
-	f2 := wgen.F2(3, false)
-	for _, i := range []int{5000, 40000, 90000} {
-		c := f2.At(i % f2.Count)
-		seeds = append(seeds, wgen.Micro{Name: c.Sig, Src: wgen.Print(c.Mod)})
-	}
-	corp := corpus()
-	small := seeds[:6]
+	ss := sync.OnceValue(func() seedSets {
+		seeds := append([]wgen.Micro{}, wgen.Micros...)
+		f1 := wgen.F1()
+		for _, i := range []int{0, 700, 1500, 2300, 3100} {
+			c := f1.At(i % f1.Count)
+			seeds = append(seeds, wgen.Micro{Name: c.Sig, Src: wgen.Print(c.Mod)})
+		}
+		f2 := wgen.F2(3, false)
+		for _, i := range []int{5000, 40000, 90000} {
+			c := f2.At(i % f2.Count)
+			seeds = append(seeds, wgen.Micro{Name: c.Sig, Src: wgen.Print(c.Mod)})
+		}
+		return seedSets{seeds: seeds, corp: corpus(), small: seeds[:6], f1: f1}
+	})
 	var gens []c10Gen
-	if thorough {
-		gens = append(gens, genLadders(1<<62, 1<<62))
-	} else {
-		gens = append(gens, genLadders(512, 1<<20))
+	add := func(mk func() c10Gen) {
+		if only < 0 || only == len(gens) {
+			gens = append(gens, mk())
+		} else {
+			gens = append(gens, c10Gen{})
+		}
 	}
+	// positions 0..4 are fixed (samples in runC10 refer to them); new generators go after them
 	if thorough {
-		gens = append(gens, genTokenStrings(5))
-		gens = append(gens, genTokenEdits(append(seeds, corp...), false))
-		gens = append(gens, genTokenEdits(small, true))
-		gens = append(gens, genByteEdits(seeds))
-		gens = append(gens, genValid([]*wgen.Family{f1, wgen.F2(3, false), wgen.F2(5, true)}, append(append([]wgen.Micro{}, wgen.Micros...), corp...)))
+		add(func() c10Gen { return genLadders(1<<62, 1<<62) })
+		add(func() c10Gen { return genTokenStrings(5) })
+		add(func() c10Gen { return genTokenEdits(append(append([]wgen.Micro{}, ss().seeds...), ss().corp...), false) })
+		add(func() c10Gen { return genByteEdits(ss().seeds) })
+		add(func() c10Gen {
+			return genValid([]*wgen.Family{ss().f1, wgen.F2(3, false), wgen.F2(5, true)}, append(append([]wgen.Micro{}, wgen.Micros...), ss().corp...))
+		})
+		add(func() c10Gen { g := genTokenEdits(ss().small, true); g.Name = "token-double-edits"; return g })
 	} else {
-		gens = append(gens, genTokenStrings(4))
-		gens = append(gens, genTokenEdits(seeds, false))
-		gens = append(gens, genByteEdits(small))
-		gens = append(gens, genValid([]*wgen.Family{f1, wgen.F2(2, false)}, append(append([]wgen.Micro{}, wgen.Micros...), corp...)))
+		add(func() c10Gen { return genLadders(512, 1<<20) })
+		add(func() c10Gen { return genTokenStrings(4) })
+		add(func() c10Gen { return genTokenEdits(ss().seeds, false) })
+		add(func() c10Gen { return genByteEdits(ss().small) })
+		add(func() c10Gen {
+			return genValid([]*wgen.Family{ss().f1, wgen.F2(2, false)}, append(append([]wgen.Micro{}, wgen.Micros...), ss().corp...))
+		})
 	}
+	add(func() c10Gen { g := genC11Programs(thorough, inWorker); g.Light = !thorough; return g })
+	add(func() c10Gen { return genFeatures(thorough) })
+	add(func() c10Gen { g := genConstructs(thorough); g.Light = !thorough; return g })
 	return gens
 }
 
@@ -129,10 +170,17 @@ type c10Panic struct {
 }
 
 // c10RunOne pushes one source through every public entry point. Returns recovered panics.
-func c10RunOne(src string) (panics []c10Panic) {
+// c10Stage is the pipeline stage c10RunOne is in (read by the worker's watchdog).
+var c10Stage atomic.Value
+
+// light: leave out the one-call Compile wrapper (its parts are run one by one anyway) and the two non-default
+// option sets (SPIR-V 1.0 with debug info, GLSL 330); every stage and every backend still runs. Used by the quick tier for the two bulk generators of generated programs.
+func c10RunOne(src string, light ...bool) (panics []c10Panic) {
+	isLight := len(light) > 0 && light[0]
 	stage := "tokenize"
 	guard := func(st string, f func()) {
 		stage = st
+		c10Stage.Store(st)
 		defer func() {
 			if r := recover(); r != nil {
 				stk := string(debug.Stack())
@@ -142,7 +190,9 @@ func c10RunOne(src string) (panics []c10Panic) {
 		f()
 	}
 	guard("tokenize", func() { wgsl.NewLexer(src).Tokenize() })
-	guard("compile", func() { naga.Compile(src) })
+	if !isLight { // the one-call wrapper; its parts (parse, lower, validate, SPIR-V) are run one by one below
+		guard("compile", func() { naga.Compile(src) })
+	}
 	var m *ir.Module
 	guard("parse+lower", func() {
 		ast, err := naga.Parse(src)
@@ -159,7 +209,9 @@ func c10RunOne(src string) (panics []c10Panic) {
 	}
 	guard("validate", func() { naga.Validate(m) })
 	guard("spirv", func() { naga.GenerateSPIRV(m, spirv.DefaultOptions()) })
-	guard("spirv1.0", func() { naga.GenerateSPIRV(m, spirv.Options{Version: spirv.Version1_0, Debug: true}) })
+	if !isLight {
+		guard("spirv1.0", func() { naga.GenerateSPIRV(m, spirv.Options{Version: spirv.Version1_0, Debug: true}) })
+	}
 	guard("hlsl", func() { hlsl.Compile(m, hlsl.DefaultOptions()) })
 	guard("msl", func() {
 		o := msl.DefaultOptions()
@@ -175,46 +227,142 @@ func c10RunOne(src string) (panics []c10Panic) {
 			glsl.Compile(m, o)
 		})
 	}
-	guard("glsl330", func() {
-		o := glsl.DefaultOptions()
-		if len(m.EntryPoints) > 0 {
-			o.EntryPoint = m.EntryPoints[0].Name
-		}
-		glsl.Compile(m, o)
-	})
+	if !isLight {
+		guard("glsl330", func() {
+			o := glsl.DefaultOptions()
+			if len(m.EntryPoints) > 0 {
+				o.EntryPoint = m.EntryPoints[0].Name
+			}
+			glsl.Compile(m, o)
+		})
+	}
 	guard("dxil", func() { dxil.Compile(m, dxil.DefaultOptions()) })
 	return
 }
 
 // ---------------------------------------------------------------- worker process
 
+// selfCPU is the CPU time (user+system, seconds) this process has used so far.
+func selfCPU() float64 {
+	var ru syscall.Rusage
+	if syscall.Getrusage(syscall.RUSAGE_SELF, &ru) != nil {
+		return 0
+	}
+	return float64(ru.Utime.Sec+ru.Stime.Sec) + float64(ru.Utime.Usec+ru.Stime.Usec)/1e6
+}
+
+// The worker watches its own CPU time: it knows exactly when an input started, so the verdict "this
+// input used more than the cap" does not depend on how promptly the parent reads the progress lines.
+var c10Watch struct {
+	mu       sync.Mutex
+	active   bool
+	k, j     int
+	startCPU float64
+}
+
+func c10StartSelfWatchdog(cpuCap float64) {
+	go func() {
+		t := time.NewTicker(200 * time.Millisecond)
+		defer t.Stop()
+		for range t.C {
+			c10Watch.mu.Lock()
+			active, k, j, st := c10Watch.active, c10Watch.k, c10Watch.j, c10Watch.startCPU
+			c10Watch.mu.Unlock()
+			if !active {
+				continue
+			}
+			if used := selfCPU() - st; used > cpuCap {
+				// where it is: all goroutine stacks (the parent tells unbounded recursion from a
+				// flat loop by the depth of the stack) and the pipeline stage
+				buf := make([]byte, 1<<20)
+				buf = buf[:runtime.Stack(buf, true)]
+				os.Stderr.Write(buf)
+				stage, _ := c10Stage.Load().(string)
+				fmt.Fprintf(os.Stdout, "K %d %d %.1f %s\n", k, j, used, stage)
+				os.Exit(3)
+			}
+		}
+	}()
+}
+
+// c10WorkerInput runs one input under the worker protocol: "@ k j" before, "P k j {panic}" per recovered
+// panic, "T k j cpu" after an input that used a second of CPU or more.
+func c10WorkerInput(k, j int, src string, light bool) {
+	out := os.Stdout
+	fmt.Fprintf(out, "@ %d %d\n", k, j)
+	c0 := selfCPU()
+	c10Watch.mu.Lock()
+	c10Watch.active, c10Watch.k, c10Watch.j, c10Watch.startCPU = true, k, j, c0
+	c10Watch.mu.Unlock()
+	ps := c10RunOne(src, light)
+	c10Watch.mu.Lock()
+	c10Watch.active = false
+	c10Watch.mu.Unlock()
+	for _, p := range ps {
+		b, _ := json.Marshal(p)
+		fmt.Fprintf(out, "P %d %d %s\n", k, j, b)
+	}
+	if used := selfCPU() - c0; used >= 1 {
+		fmt.Fprintf(out, "T %d %d %.2f\n", k, j, used)
+	}
+}
+
 func c10Worker(args []string) int {
-	// args: tier gen shard nshards start
+	// args: tier gen shard nshards start [startSub [limit]]   |   stdin   (one input read from standard input)
+	// Stack ceiling 256 MiB instead of Go's 1 GiB: unbounded recursion is recognised four times sooner
+	// (a process death costs seconds), and no input of at most 64 KiB has a proportionate need for more.
+	debug.SetMaxStack(256 << 20)
+	cpuCap := 40.0
+	if v, err := strconv.ParseFloat(os.Getenv("VERIF_C10_WORKER_CPUCAP"), 64); err == nil && v > 0 {
+		cpuCap = v
+	}
+	c10StartSelfWatchdog(cpuCap)
+	if args[0] == "stdin" {
+		b, _ := io.ReadAll(os.Stdin)
+		c10WorkerInput(0, 0, string(b), false)
+		fmt.Fprintln(os.Stdout, "D")
+		return 0
+	}
 	thorough := args[0] == "thorough"
 	g, _ := strconv.Atoi(args[1])
 	shard, _ := strconv.Atoi(args[2])
 	n, _ := strconv.Atoi(args[3])
 	start, _ := strconv.Atoi(args[4])
-	gen := c10Generators(thorough)[g]
-	out := os.Stdout
-	for k := start; ; k++ {
-		idx := shard + k*n
-		if idx >= gen.Count {
-			break
-		}
-		fmt.Fprintf(out, "@ %d\n", k)
-		src := gen.At(idx)
-		t0 := time.Now()
-		ps := c10RunOne(src)
-		if os.Getenv("VERIF_C10_TIMES") != "" {
-			fmt.Fprintf(os.Stderr, "T %.3f %s\n", time.Since(t0).Seconds(), gen.Label(idx))
-		}
-		for _, p := range ps {
-			b, _ := json.Marshal(p)
-			fmt.Fprintf(out, "P %d %s\n", k, b)
+	startSub := 0
+	if len(args) > 5 {
+		startSub, _ = strconv.Atoi(args[5])
+	}
+	gen := c10GeneratorsOnly(thorough, g, true)[g]
+	limit := gen.Count
+	if len(args) > 6 {
+		if l, _ := strconv.Atoi(args[6]); l > 0 && l < limit {
+			limit = l
 		}
 	}
-	fmt.Fprintln(out, "D")
+	for k := start; ; k++ {
+		idx := shard + k*n
+		if idx >= limit {
+			break
+		}
+		// a generator index is one input, or (Many) a job that yields several inputs
+		var srcs []string
+		if gen.Many != nil {
+			srcs = gen.Many(idx)
+		} else {
+			srcs = []string{gen.At(idx)}
+		}
+		j0 := 0
+		if k == start {
+			j0 = startSub
+		}
+		for j := j0; j < len(srcs); j++ {
+			if srcs[j] == c10SkipInput {
+				continue
+			}
+			c10WorkerInput(k, j, srcs[j], gen.Light)
+		}
+	}
+	fmt.Fprintln(os.Stdout, "D")
 	return 0
 }
 
@@ -237,6 +385,14 @@ func procCPU(pid int) float64 {
 	return (ut + st) / 100.0
 }
 
+// c10Failure is one failing input as seen by the parent.
+type c10Failure struct {
+	idx, sub int
+	cls      string // failure class: panic|stage|message class|frame, fatal|..., cpu-cap|...
+	detail   string
+	replay   map[string]any
+}
+
 func runC10() int {
 	r := explore.New("C10")
 	thorough := r.Thorough()
@@ -255,38 +411,154 @@ func runC10() int {
 	if thorough {
 		tier = "thorough"
 	}
-	for g, gen := range gens {
-		t0 := time.Now()
-		defer func(name string) { _ = name }(gen.Name)
-		r.Extra("inputs_"+gen.Name, gen.Count)
-		r.Count("evaluations", int64(gen.Count))
-		var wg sync.WaitGroup
-		for s := 0; s < nshards; s++ {
-			wg.Add(1)
-			go func(s int) {
-				defer wg.Done()
-				start := 0
-				for {
-					done, last := c10RunShard(r, self, tier, g, gen, s, nshards, start, cpuCap, memKiB)
-					if done {
-						return
-					}
-					start = last + 1
-				}
-			}(s)
-		}
-		wg.Wait()
-		r.Extra("wall_s_"+gen.Name, time.Since(t0).Seconds())
+	only := os.Getenv("VERIF_C10_ONLY") // authoring aid: run one generator (name prefix)
+	// All generators run concurrently over one pool of nshards worker slots, so that the few inputs
+	// that burn CPU up to the cap (ladders) do not serialise the run. Coverage does not depend on the
+	// interleaving: every (generator, index) is run exactly once in an isolated worker.
+	slots := make(chan struct{}, nshards)
+	// A process death (fatal error, CPU cap) costs seconds. On the unchanged tree a generator sees a few
+	// dozen at most; a change that makes whole families die would otherwise turn the run into hours, so a
+	// generator is abandoned (run marked not exhaustive) once it has reported this many deaths.
+	deathBudget := int64(150)
+	if thorough {
+		deathBudget = 3000
 	}
+	var all sync.WaitGroup
+	for g := range gens {
+		gen := gens[g]
+		if only != "" && !strings.HasPrefix(gen.Name, only) {
+			continue
+		}
+		r.Extra("inputs_"+gen.Name, gen.Count)
+		all.Add(1)
+		go func(g int, gen c10Gen) {
+			defer all.Done()
+			t0 := time.Now()
+			var mu sync.Mutex
+			var abandoned atomic.Bool
+			var collected []c10Failure
+			var deaths atomic.Int64
+			report := func(f c10Failure) {
+				r.Distinct(f.cls)
+				if !strings.HasPrefix(f.cls, "panic|") {
+					deaths.Add(1)
+				}
+				if gen.Resolve != nil || gen.SkipEnv != nil {
+					mu.Lock()
+					collected = append(collected, f)
+					mu.Unlock()
+				}
+				if gen.Resolve != nil { // keyed after the whole generator has run (minimal failing combination)
+					return
+				}
+				r.Violate(explore.Violation{Key: "C10|" + f.cls, Detail: f.detail, Replay: f.replay})
+			}
+			// A generator with Split > 0 runs in two phases: indices below Split first; what failed
+			// there decides (SkipEnv) which of the remaining indices are not worth running.
+			phases := [][2]int{{0, gen.Count}}
+			if gen.Split > 0 && gen.Split < gen.Count {
+				phases = [][2]int{{0, gen.Split}, {gen.Split, gen.Count}}
+			}
+			for pi, ph := range phases {
+				env := ""
+				if pi == 1 && gen.SkipEnv != nil {
+					mu.Lock()
+					env = gen.SkipEnv(collected)
+					mu.Unlock()
+					if env != "" {
+						r.Extra("phase2_env_"+gen.Name, env)
+					}
+				}
+				var wg sync.WaitGroup
+				for s := 0; s < nshards; s++ {
+					wg.Add(1)
+					go func(s int) {
+						defer wg.Done()
+						start, sub := 0, 0
+						if ph[0] > s {
+							start = (ph[0] - s + nshards - 1) / nshards
+						}
+						for {
+							if deaths.Load() > deathBudget {
+								abandoned.Store(true)
+								return
+							}
+							slots <- struct{}{}
+							done, lastK, lastJ := c10RunShard(r, self, tier, g, gen, s, nshards, start, sub, ph[1], env, cpuCap, memKiB, report)
+							<-slots
+							if done {
+								return
+							}
+							if gen.Many != nil {
+								start, sub = lastK, lastJ+1
+							} else {
+								start, sub = lastK+1, 0
+							}
+						}
+					}(s)
+				}
+				wg.Wait()
+			}
+			if gen.Resolve != nil {
+				sort.Slice(collected, func(i, j int) bool {
+					a, b := collected[i], collected[j]
+					if a.idx != b.idx {
+						return a.idx < b.idx
+					}
+					if a.sub != b.sub {
+						return a.sub < b.sub
+					}
+					return a.cls < b.cls
+				})
+				for _, v := range gen.Resolve(collected) {
+					r.Violate(v)
+				}
+			}
+			r.Extra("wall_s_"+gen.Name, time.Since(t0).Seconds())
+			if abandoned.Load() {
+				r.NotExhaustive(fmt.Sprintf("generator %s abandoned after more than %d process deaths (each is reported)", gen.Name, deathBudget))
+			}
+		}(g, gen)
+	}
+	all.Wait()
 	r.Extra("cpu_cap_s", cpuCap)
-	r.Sample(map[string]any{"generator": "ladders", "label": gens[0].Label(3), "source_prefix": trunc(gens[0].At(3), 160)})
-	r.Sample(map[string]any{"generator": gens[1].Name, "label": gens[1].Label(12345 % gens[1].Count), "source": gens[1].At(12345 % gens[1].Count)})
-	r.Sample(map[string]any{"generator": gens[2].Name, "label": gens[2].Label(777 % gens[2].Count)})
+	sort.Slice(c10SlowList, func(i, j int) bool {
+		if c10SlowList[i].CPU != c10SlowList[j].CPU {
+			return c10SlowList[i].CPU > c10SlowList[j].CPU
+		}
+		return c10SlowList[i].Label < c10SlowList[j].Label
+	})
+	r.Extra("inputs_over_1s_cpu", len(c10SlowList))
+	if len(c10SlowList) > 12 {
+		c10SlowList = c10SlowList[:12]
+	}
+	r.Extra("slowest_inputs(worker rusage, below the cap: reported, not violations)", c10SlowList)
+	if only == "" {
+		r.Sample(map[string]any{"generator": "ladders", "label": gens[0].Label(3), "source_prefix": trunc(gens[0].At(3), 160)})
+		r.Sample(map[string]any{"generator": gens[1].Name, "label": gens[1].Label(12345 % gens[1].Count), "source": gens[1].At(12345 % gens[1].Count)})
+		r.Sample(map[string]any{"generator": gens[2].Name, "label": gens[2].Label(777 % gens[2].Count)})
+		for _, gen := range gens[5:] {
+			i := gen.Count / 3
+			r.Sample(map[string]any{"generator": gen.Name, "label": gen.label(i, 0), "source": trunc(gen.src(i, 0), 1500)})
+		}
+	} else {
+		r.NotExhaustive("VERIF_C10_ONLY=" + only)
+	}
 	printKeys(r)
-	return r.Finish("every token string up to length L over a 24-token alphabet in 3 contexts; every single-token edit (delete/duplicate/swap/replace by each alphabet token) at every token of every seed; every prefix and every byte substitution from a hostile byte set at every offset of the small seeds; parametric ladders (nesting depth, chain length, object size) up to 64 KiB of source plus fixed cyclic/self-referential programs; all valid generated programs. Each input goes through tokenize, Compile, parse, lower, validate and all five backends in an isolated worker (ulimit -v 4 GiB, CPU-time cap). distinct = distinct (stage, panic message class, innermost naga frame) outcomes plus the clean outcome",
-		[]string{"a violation is a recovered panic, a worker death by Go fatal error (stack overflow, out of memory under the address-space limit), or more than the CPU-time cap spent on one input; slow-but-terminating inputs below the cap are not violations",
-			"coverage of 'all byte strings' is necessarily partial: what is exhausted is stated in rule"})
+	return r.Finish(c10Rule, c10Assumptions)
 }
+
+const c10Rule = "every token string up to length L over a 24-token alphabet in 3 contexts; every single-token edit (delete/duplicate/swap/replace by each alphabet token) at every token of every seed; every prefix and every byte substitution from a hostile byte set at every offset of the small seeds; parametric ladders (nesting depth, chain length, object size) up to 64 KiB of source plus fixed cyclic/self-referential programs; all valid generated programs. " +
+	"c11-programs: every program the C11 check generates (semantically invalid but syntactically well-formed programs, and their valid controls): every rule-breaking edit of every C11 seed (c11Edits) and the whole generated family C11G (rule x host position x enclosing function x declaration order; module-scope hosts; binding pairing; workgroup size; scope pairs; ';'/delimiter deletions of the generated hosts), offenders run whether or not the control is accepted. " +
+	"features: a table of self-contained module-scope feature snippets, valid, odd and invalid (recursion, duplicated and odd bindings, duplicate/shadowing/reserved names, type/const/override cycles, odd entry points and attributes, every address space x type kind, every texture/sampler kind unused/used/passed to a helper, swizzle lengths 1..6 x vector widths, derivative/barrier/atomic/subgroup/quad builtins in every stage, directives, const_assert forms, odd statements/expressions/literals ...): every snippet alone; ALL ordered pairs of the pair set, each as one module in two layouts (each snippet with its own entry point; one entry point using both); every other snippet x the 8-snippet mini core in both orders and layouts; thorough: all ordered pairs of all snippets and all ordered triples of the core. Identifiers are made distinct by a per-position prefix unless the clash is the point. " +
+	"constructs: exhaustive single-construct sweeps (every letter string of length 1..5 (thorough 1..6) over xyzw and over rgba, longer repeated/cycled and namespace-mixing strings, x vector width 2..4 x 10 base-expression kinds; every builtin function and type-constructor name x leading-argument pattern x 0..4 (thorough 0..6) further arguments of one kind, as a value and as a statement (thorough: also as both operands of a binary operator)). " +
+	"Each input goes through tokenize, Compile, parse, lower, validate and all five backends (SPIR-V and GLSL under two option sets each; the quick tier runs c11-programs and constructs under the default option sets only and without the one-call Compile wrapper, whose parts are run one by one) in an isolated worker (ulimit -v 4 GiB, CPU-time cap measured by the worker itself per input). distinct = distinct (stage, panic message class, innermost naga frame) outcomes plus the clean outcome"
+
+var c10Assumptions = []string{"a violation is a recovered panic, a worker death by Go fatal error (stack overflow, out of memory under the address-space limit), or more than the CPU-time cap spent on one input; slow-but-terminating inputs below the cap are not violations",
+	"coverage of 'all byte strings' is necessarily partial: what is exhausted is stated in rule",
+	"workers run with a 256 MiB goroutine stack ceiling (Go's default is 1 GiB): an input of at most 64 KiB that needs more stack than that is reported as a stack overflow",
+	"feature snippets that kill the process or exceed the CPU cap on their own are reported once and left out of the combinations (every combination holding one would die the same way first)",
+	"a failure of a feature combination is keyed by the smallest sub-combination (single snippet, then pair) that fails alone in the same way, so a defect of one snippet is one finding, not one per partner"}
 
 func trunc(s string, n int) string {
 	if len(s) > n {
@@ -295,14 +567,45 @@ func trunc(s string, n int) string {
 	return s
 }
 
-// c10RunShard runs one worker; returns done=true when the shard finished, else the last index k it was working on.
-func c10RunShard(r *explore.Run, self, tier string, g int, gen c10Gen, shard, n, start int, cpuCap float64, memKiB int) (bool, int) {
-	if shard+start*n >= gen.Count {
-		return true, 0
-	}
-	cmdline := fmt.Sprintf("ulimit -v %d; exec %q worker c10 %s %d %d %d %d", memKiB, self, tier, g, shard, n, start)
+// c10Proc is what one worker process did, as seen by its parent.
+type c10Proc struct {
+	done     bool // the worker printed its final "D"
+	k, j     int  // the input it was on when it ended
+	selfKill bool // the worker's own watchdog reported the input over the CPU cap ("K" line)
+	capStage string // pipeline stage the input was in when it went over the cap
+	killed   bool // the parent's backstop watchdog killed it
+	stderr   string
+	panics   []c10PanicAt
+	slow     []c10Slow
+	nrun     int64
+	cpu      float64 // user+system CPU of the process (rusage)
+}
+
+type c10PanicAt struct {
+	k, j int
+	p    c10Panic
+}
+
+type c10Slow struct {
+	k, j int
+	cpu  float64
+}
+
+// c10RunProc starts one worker process (argv after "worker c10"), feeds it stdin if given, and follows
+// its protocol. The parent's watchdog is only a backstop (2 x cap + 20 s of CPU without any observed
+// progress): the worker's own watchdog is the one that knows when an input started.
+func c10RunProc(self string, argv []string, stdin string, extraEnv string, cpuCap float64, memKiB int, k0, j0 int) c10Proc {
+	cmdline := fmt.Sprintf("ulimit -v %d; exec %q worker c10 %s", memKiB, self, strings.Join(argv, " "))
 	cmd := exec.Command("sh", "-c", cmdline)
-	cmd.Env = append(os.Environ(), "GOMAXPROCS=2", "GOGC=50")
+	// one P: naga is sequential, and a second P only adds idle spinning and GC-worker wake-ups (measured:
+	// 2-3 x the CPU time for the same inputs); the watchdog goroutine still runs (asynchronous preemption)
+	cmd.Env = append(os.Environ(), "GOMAXPROCS=1", "GOGC=100", fmt.Sprintf("VERIF_C10_WORKER_CPUCAP=%g", cpuCap))
+	if extraEnv != "" {
+		cmd.Env = append(cmd.Env, extraEnv)
+	}
+	if stdin != "" || (len(argv) > 0 && argv[0] == "stdin") {
+		cmd.Stdin = strings.NewReader(stdin)
+	}
 	var stderr bytes.Buffer
 	cmd.Stderr = &limitedWriter{buf: &stderr, max: 1 << 20}
 	stdout, _ := cmd.StdoutPipe()
@@ -311,16 +614,14 @@ func c10RunShard(r *explore.Run, self, tier string, g int, gen c10Gen, shard, n,
 		fmt.Println("HARNESS-ERROR: cannot start worker:", err)
 		os.Exit(2)
 	}
+	res := c10Proc{k: k0, j: j0}
 	var mu sync.Mutex
-	cur := start
-	killedForCPU := false
+	progress := 0
 	stop := make(chan struct{})
 	go func() {
-		// CPU-time watchdog: no wall-clock oracle. The worker's CPU time is sampled; if it grows by
-		// more than the cap while the worker stays on one input, the worker is killed.
 		t := time.NewTicker(500 * time.Millisecond)
 		defer t.Stop()
-		lastK := -1
+		last := -1
 		cpuAtProgress := 0.0
 		for {
 			select {
@@ -332,15 +633,15 @@ func c10RunShard(r *explore.Run, self, tier string, g int, gen c10Gen, shard, n,
 					continue
 				}
 				mu.Lock()
-				k := cur
+				p := progress
 				mu.Unlock()
-				if k != lastK {
-					lastK, cpuAtProgress = k, c
+				if p != last {
+					last, cpuAtProgress = p, c
 					continue
 				}
-				if c-cpuAtProgress > cpuCap {
+				if c-cpuAtProgress > 2*cpuCap+20 {
 					mu.Lock()
-					killedForCPU = true
+					res.killed = true
 					mu.Unlock()
 					syscall.Kill(-cmd.Process.Pid, syscall.SIGKILL)
 					return
@@ -350,62 +651,197 @@ func c10RunShard(r *explore.Run, self, tier string, g int, gen c10Gen, shard, n,
 	}()
 	sc := bufio.NewScanner(stdout)
 	sc.Buffer(make([]byte, 1<<20), 1<<24)
-	done := false
 	for sc.Scan() {
 		ln := sc.Text()
-		switch {
-		case strings.HasPrefix(ln, "@ "):
-			k, _ := strconv.Atoi(ln[2:])
-			mu.Lock()
-			cur = k
-			mu.Unlock()
-		case strings.HasPrefix(ln, "P "):
-			rest := ln[2:]
-			sp := strings.IndexByte(rest, ' ')
-			k, _ := strconv.Atoi(rest[:sp])
-			var p c10Panic
-			json.Unmarshal([]byte(rest[sp+1:]), &p)
-			idx := shard + k*n
-			cls := "panic|" + p.Stage + "|" + errClass(p.Msg) + "|" + p.Frame
-			r.Distinct(cls)
-			r.Violate(explore.Violation{Key: "C10|" + cls,
-				Detail: fmt.Sprintf("recovered panic in %s: %s\ninnermost naga frame: %s\ninput: %s [%s #%d]", p.Stage, p.Msg, p.Frame, gen.Label(idx), gen.Name, idx),
-				Replay: map[string]any{"generator": gen.Name, "index": idx, "label": gen.Label(idx), "src": trunc(gen.At(idx), 70000), "stack": trunc(p.Stack, 6000)}})
-		case ln == "D":
-			done = true
+		mu.Lock()
+		progress++
+		mu.Unlock()
+		if len(ln) < 1 {
+			continue
+		}
+		var k, j int
+		switch ln[0] {
+		case '@':
+			fmt.Sscanf(ln[2:], "%d %d", &k, &j)
+			res.k, res.j = k, j
+			res.nrun++
+		case 'K':
+			var c float64
+			fmt.Sscanf(ln[2:], "%d %d %f %s", &k, &j, &c, &res.capStage)
+			res.k, res.j, res.selfKill = k, j, true
+		case 'T':
+			var c float64
+			fmt.Sscanf(ln[2:], "%d %d %f", &k, &j, &c)
+			res.slow = append(res.slow, c10Slow{k, j, c})
+		case 'P':
+			f := strings.SplitN(ln, " ", 4)
+			if len(f) == 4 {
+				k, _ = strconv.Atoi(f[1])
+				j, _ = strconv.Atoi(f[2])
+				var p c10Panic
+				json.Unmarshal([]byte(f[3]), &p)
+				res.panics = append(res.panics, c10PanicAt{k, j, p})
+			}
+		case 'D':
+			res.done = true
 		}
 	}
 	cmd.Wait()
 	close(stop)
-	r.Distinct("clean")
-	if done {
-		return true, 0
-	}
 	mu.Lock()
-	k := cur
-	cpuKill := killedForCPU
-	mu.Unlock()
-	idx := shard + k*n
-	es := stderr.String()
-	var cls string
-	switch {
-	case cpuKill:
-		cls = "cpu-cap|" + gen.Label(idx)
-		if strings.HasPrefix(gen.Name, "tokens") || gen.Name == "token-edits" || gen.Name == "byte-edits" || gen.Name == "valid-programs" {
-			cls = "cpu-cap|" + gen.Name
-		}
-	case strings.Contains(es, "stack overflow"):
-		cls = "fatal|stack overflow|" + cycleSig(afterGoroutine(es))
-	case strings.Contains(es, "out of memory") || strings.Contains(es, "cannot allocate memory"):
-		cls = "fatal|out of memory|" + topNagaFrame(afterGoroutine(es))
-	default:
-		cls = "fatal|" + errClass(firstLine(es)) + "|" + topNagaFrame(afterGoroutine(es))
+	defer mu.Unlock()
+	res.stderr = stderr.String()
+	if ps := cmd.ProcessState; ps != nil {
+		res.cpu = ps.UserTime().Seconds() + ps.SystemTime().Seconds()
 	}
-	r.Distinct(cls)
-	r.Violate(explore.Violation{Key: "C10|" + cls,
-		Detail: fmt.Sprintf("worker died on input %s [%s #%d]: %s\ninnermost naga frame: %s", gen.Label(idx), gen.Name, idx, firstLine(es), topNagaFrame(afterGoroutine(es))),
-		Replay: map[string]any{"generator": gen.Name, "index": idx, "label": gen.Label(idx), "src": trunc(gen.At(idx), 70000), "stderr": trunc(es, 6000)}})
-	return false, k
+	return res
+}
+
+// c10DeathClass names how a worker process ended on an input (capSuffix: what a CPU-cap class is named after).
+func c10DeathClass(p c10Proc, capSuffix string) string {
+	es := p.stderr
+	switch {
+	case p.selfKill && c10ElidedFrames(es) >= 50000:
+		// over the CPU cap with a stack tens of thousands of frames deep: the recursion that would end in
+		// a stack overflow, caught earlier (on a slow machine the cap comes first); same class as the overflow
+		return "fatal|stack overflow|" + cycleSig(c10DeepestGoroutine(es))
+	case p.selfKill:
+		return "cpu-cap|" + capSuffix + "|" + p.capStage
+	case p.killed:
+		return "cpu-cap|" + capSuffix + "|?"
+	case strings.Contains(es, "stack overflow"):
+		return "fatal|stack overflow|" + cycleSig(afterGoroutine(es))
+	case strings.Contains(es, "out of memory") || strings.Contains(es, "cannot allocate memory"):
+		return "fatal|out of memory|" + topNagaFrame(afterGoroutine(es))
+	}
+	return "fatal|" + errClass(firstLine(es)) + "|" + topNagaFrame(afterGoroutine(es))
+}
+
+var elidedRe = regexp.MustCompile(`\.\.\.([0-9]+) frames elided\.\.\.`)
+
+// c10ElidedFrames: the largest "...N frames elided..." count in a dump of all goroutines (0 if none).
+func c10ElidedFrames(es string) int {
+	best := 0
+	for _, m := range elidedRe.FindAllStringSubmatch(es, -1) {
+		if n, _ := strconv.Atoi(m[1]); n > best {
+			best = n
+		}
+	}
+	return best
+}
+
+// c10DeepestGoroutine returns, from a dump of all goroutines, the one with the deepest elided traceback.
+func c10DeepestGoroutine(es string) string {
+	want := fmt.Sprintf("...%d frames elided...", c10ElidedFrames(es))
+	for _, g := range strings.Split(es, "\n\n") {
+		if strings.Contains(g, want) {
+			return g
+		}
+	}
+	return es
+}
+
+func c10PanicClass(p c10Panic) string {
+	return "panic|" + p.Stage + "|" + errClass(p.Msg) + "|" + p.Frame
+}
+
+// c10RunAlone runs one source text alone in a fresh worker and returns its failure classes (recovered
+// panics, then at most one death class). This is the run a death verdict is based on, and the replay.
+func c10RunAlone(self, src, capSuffix string, cpuCap float64, memKiB int) (classes []string, proc c10Proc) {
+	proc = c10RunProc(self, []string{"stdin"}, src, "", cpuCap, memKiB, 0, 0)
+	for _, p := range proc.panics {
+		classes = append(classes, c10PanicClass(p.p))
+	}
+	if !proc.done {
+		classes = append(classes, c10DeathClass(proc, capSuffix))
+	}
+	return
+}
+
+// c10RunShard runs one worker; returns done=true when the shard finished, else the (k, sub) it was working on.
+func c10RunShard(r *explore.Run, self, tier string, g int, gen c10Gen, shard, n, start, startSub, limit int, extraEnv string, cpuCap float64, memKiB int, report func(c10Failure)) (bool, int, int) {
+	if shard+start*n >= limit {
+		return true, 0, 0
+	}
+	argv := []string{tier, strconv.Itoa(g), strconv.Itoa(shard), strconv.Itoa(n), strconv.Itoa(start), strconv.Itoa(startSub), strconv.Itoa(limit)}
+	proc := c10RunProc(self, argv, "", extraEnv, cpuCap, memKiB, start, startSub)
+	capSuffix := func(idx int) string {
+		if gen.Name == "ladders" {
+			return gen.Label(idx)
+		}
+		return gen.Name
+	}
+	sig := func(idx int) string { // what a replay needs besides the source: the CPU-cap class name
+		return "C10|\x1f" + capSuffix(idx)
+	}
+	for _, p := range proc.panics {
+		idx := shard + p.k*n
+		report(c10Failure{idx: idx, sub: p.j, cls: c10PanicClass(p.p),
+			detail: fmt.Sprintf("recovered panic in %s: %s\ninnermost naga frame: %s\ninput: %s [%s #%d.%d]", p.p.Stage, p.p.Msg, p.p.Frame, gen.label(idx, p.j), gen.Name, idx, p.j),
+			replay: map[string]any{"generator": gen.Name, "index": idx, "sub": p.j, "label": gen.label(idx, p.j), "sig": sig(idx), "src": trunc(gen.src(idx, p.j), 70000), "stack": trunc(p.p.Stack, 6000)}})
+	}
+	for _, t := range proc.slow {
+		idx := shard + t.k*n
+		c10NoteSlow(gen.label(idx, t.j), t.cpu)
+	}
+	r.Count("evaluations", proc.nrun)
+	r.Count("programs_"+gen.Name, proc.nrun)
+	r.Count("worker_cpu_s_"+gen.Name, int64(proc.cpu+0.5))
+	r.Distinct("clean")
+	if proc.done {
+		return true, 0, 0
+	}
+	// The worker ended on input (k, j). The verdict is taken from a second run of exactly that input, alone
+	// in a fresh worker: its own CPU time against the cap, its own way of dying. If that run is clean the
+	// batch worker's end is not attributable to the input (a starved parent, memory left over from
+	// earlier inputs) and the shard simply continues after it.
+	k, j := proc.k, proc.j
+	idx := shard + k*n
+	src := gen.src(idx, j)
+	var classes []string
+	alone := proc
+	if proc.selfKill {
+		// the worker's own watchdog: CPU time of exactly this input, measured by the worker (rusage at the
+		// input's start vs now); independent of the parent, so it is taken as it stands
+		classes = []string{c10DeathClass(proc, capSuffix(idx))}
+	} else {
+		classes, alone = c10RunAlone(self, src, capSuffix(idx), cpuCap, memKiB)
+		if alone.done && len(classes) == 0 {
+			r.Count("watchdog_retries_clean", 1)
+			return false, k, j
+		}
+		r.Count("deaths_confirmed_alone", 1)
+	}
+	for _, cls := range classes {
+		f := c10Failure{idx: idx, sub: j, cls: cls,
+			replay: map[string]any{"generator": gen.Name, "index": idx, "sub": j, "label": gen.label(idx, j), "sig": sig(idx), "src": trunc(src, 70000)}}
+		if strings.HasPrefix(cls, "panic|") {
+			f.detail = fmt.Sprintf("recovered panic (%s)\ninput: %s [%s #%d.%d]", cls, gen.label(idx, j), gen.Name, idx, j)
+		} else {
+			es := alone.stderr
+			f.detail = fmt.Sprintf("worker died on input %s [%s #%d.%d] (confirmed alone in a fresh worker): %s\ninnermost naga frame: %s", gen.label(idx, j), gen.Name, idx, j, firstLine(es), topNagaFrame(afterGoroutine(es)))
+			if alone.selfKill || alone.killed {
+				f.detail = fmt.Sprintf("input %s [%s #%d.%d] used more than the CPU cap of %g s (the worker's own rusage for this input alone; pipeline stage %s)", gen.label(idx, j), gen.Name, idx, j, cpuCap, alone.capStage)
+			}
+			f.replay["stderr"] = trunc(es, 6000)
+		}
+		report(f)
+	}
+	return false, k, j
+}
+
+var c10SlowMu sync.Mutex
+var c10SlowList []c10SlowEntry
+
+type c10SlowEntry struct {
+	Label string  `json:"input"`
+	CPU   float64 `json:"cpu_s"`
+}
+
+func c10NoteSlow(label string, cpu float64) {
+	c10SlowMu.Lock()
+	c10SlowList = append(c10SlowList, c10SlowEntry{label, cpu})
+	c10SlowMu.Unlock()
 }
 
 func afterGoroutine(es string) string {
